@@ -947,6 +947,15 @@ func execSched(spec *RunSpec, st *Stats) *Violation {
 						st.Inc("sched.c14_faults_fired")
 					}
 				}
+				if op.Fault == nil {
+					// control: a fault-free call (also those writing into a long-lived destination,
+					// whose sink holds earlier documents too) delivers exactly the fault-free output
+					if res.Err != nil || !bytes.Equal(res.Out, ref.out) {
+						return &Violation{Class: "success-but-incomplete", Client: i, Op: k, Want: ref.out, Got: res.Out, Race: race,
+							Detail: fmt.Sprintf("fault-free call next to failing neighbours returned err=%v and delivered %d bytes, alone %d bytes", res.Err, len(res.Out), len(ref.out))}
+					}
+					continue
+				}
 				r := res
 				if v := checkFaulted(&r, ref.out); v != nil {
 					v.Client, v.Op, v.Race = i, k, race
